@@ -249,6 +249,8 @@ class Engine:
         self.stats["solver_s"] += dt
         if r == "unknown":
             self.stats["unknown"] += 1
+        if dt > 1.0 and os.environ.get("SYMCURIE_SLOW"):     # diagnosis only
+            print(f"[slow query {dt:.1f}s -> {r}, {len(assertions)} assertions] last: {str(assertions[-1])[:400]}", file=sys.stderr, flush=True)
         return r, m
 
     @staticmethod
@@ -395,7 +397,7 @@ class Engine:
             self.assume(z3.Not(_b(cond)))
 
     def branch(self, cond) -> bool:
-        cond = self.norm(cond)
+        cond = order_simplify(self.norm(cond))
         if z3.is_true(cond):
             return True
         if z3.is_false(cond):
@@ -483,6 +485,7 @@ class Engine:
         # strings, or that the regular lemma proves; only the rest goes to the solver portfolio
         rest = []
         for c in (cond.children() if z3.is_and(cond) else [cond]):
+            c = order_simplify(c)
             if z3.is_true(c) or self.decided.get(c.get_id()) is True:
                 continue
             if z3.is_app(c) and c.decl().kind() in (z3.Z3_OP_STRING_LT, z3.Z3_OP_STRING_LE) and self._order_lemma(c) is True:
@@ -643,6 +646,8 @@ class Engine:
             self.pos = 0
             self.path_optimistic = 0
             self.model = None
+            for reset in PATH_RESET:
+                reset()
             try:
                 out = fn(self)
                 self.outcomes[out] = self.outcomes.get(out, 0) + 1
@@ -695,6 +700,11 @@ class Engine:
             elif kind == "islower":
                 cfdef.append(z3.Or(z3.And(z3.InRe(t, short), ISLOWER(t) == ascii_islower_expr(t, 3)),
                                    z3.And(z3.Or(t == z3.StringVal("\u00df"), t == z3.StringVal("\u017f")), ISLOWER(t))))
+            elif kind == "jsonesc":
+                table = [('"', '\\"'), ("\\", "\\\\"), ("\n", "\\n"), ("\u00e9", "\\u00e9"), (chr(0x10000), "\\ud800\\udc00"),
+                         (chr(0x1F600), "\\ud83d\\ude00")]
+                cfdef.append(z3.Or(z3.And(z3.InRe(t, JSON_SAFE), JSON_ESC(t) == t),
+                                   *[z3.And(t == z3.StringVal(a), JSON_ESC(t) == z3.StringVal(b)) for a, b in table]))
             elif kind.startswith("normalize:"):
                 f = norm_fn(kind.split(":", 1)[1])
                 composed = kind.endswith(("NFC", "NFKC"))
@@ -887,6 +897,49 @@ def flatten(e):
         else:
             out.append(p)
     return out
+
+
+def order_simplify(cond):
+    """a ++ x < a ++ y  <=>  x < y: a common leading part (identical terms, or common leading characters of constants)
+    does not influence the lexicographic order, and two constant heads that differ in their first character decide it.
+    Both solvers can hang on comparisons such as  mp ++ "10" < mp ++ "2"  that this settles syntactically."""
+    if not (z3.is_app(cond) and cond.decl().kind() in (z3.Z3_OP_STRING_LT, z3.Z3_OP_STRING_LE)):
+        return cond
+    le = cond.decl().kind() == z3.Z3_OP_STRING_LE
+    a, b = flatten(cond.arg(0)), flatten(cond.arg(1))
+    a = [p for p in a if not (z3.is_string_value(p) and z3str_to_py(p) == "")]
+    b = [p for p in b if not (z3.is_string_value(p) and z3str_to_py(p) == "")]
+    changed = False
+    while a and b:
+        x, y = a[0], b[0]
+        if x.eq(y):
+            a.pop(0)
+            b.pop(0)
+            changed = True
+            continue
+        if z3.is_string_value(x) and z3.is_string_value(y):
+            sx, sy = z3str_to_py(x), z3str_to_py(y)
+            n = 0
+            while n < len(sx) and n < len(sy) and sx[n] == sy[n]:
+                n += 1
+            if n < len(sx) and n < len(sy):
+                return z3.BoolVal(sx[n] < sy[n])        # first difference inside the constants: code point order
+            if n == 0:
+                break
+            changed = True
+            a[0:1] = [z3.StringVal(sx[n:])] if n < len(sx) else []
+            b[0:1] = [z3.StringVal(sy[n:])] if n < len(sy) else []
+            continue
+        break
+    if not changed:
+        return cond
+    if not a and not b:
+        return z3.BoolVal(le)
+    if not a:
+        return z3.BoolVal(True) if le else z3.Length(cat(b)) > 0
+    if not b:
+        return (z3.Length(cat(a)) == 0) if le else z3.BoolVal(False)
+    return (cat(a) <= cat(b)) if le else (cat(a) < cat(b))
 
 
 def cat(parts):
@@ -1163,6 +1216,9 @@ def sym_float(x=0.0):
     if eng.branch(z3.InRe(e, z3.Star(ws_re()))):
         raise ValueError("could not convert string to float: blank")
     raise Unsupported("float() of a string outside the numeral registry")
+
+
+PATH_RESET = []     # callables that clear state living outside the harness run (module-level memo tables of the stubs)
 
 
 class SymStr:
@@ -1594,6 +1650,58 @@ class SymStr:
     def format(self, *a, **k):
         raise Unsupported("str.format on a symbolic template")
 
+    def __mod__(self, args):
+        """printf-style formatting of a template that contains symbolic text.  Three cases: no symbolic piece holds a
+        '%' (the literal pieces are formatted, %s / %d / %% only); every '%' of the symbolic pieces is doubled (the
+        result is some unspecified string); otherwise a stray conversion consumes an argument the literal pieces need
+        or is invalid, and CPython raises TypeError or ValueError (modelled as TypeError; the replay shows the real one)."""
+        eng = E()
+        pieces = flatten(self.e)
+        sym = [p for p in pieces if not z3.is_string_value(p)]
+        pct = z3.StringVal("%")
+        if sym and eng.branch(z3.Or(*[z3.Contains(p, pct) for p in sym])):
+            other = z3.Intersect(z3.AllChar(z3.ReSort(z3.StringSort())), z3.Complement(z3.Re("%")))
+            doubled = z3.Star(z3.Union(other, z3.Re("%%")))
+            if eng.branch(z3.And(*[z3.InRe(p, doubled) for p in sym])):
+                return SymStr(eng.fresh_str("fmt"))
+            raise TypeError("not enough arguments for format string")
+        args = list(args) if isinstance(args, tuple) else [args]
+        out = []
+        for p in pieces:
+            if not z3.is_string_value(p):
+                out.append(SymStr(p))
+                continue
+            lit = z3str_to_py(p)
+            i = 0
+            buf = ""
+            while i < len(lit):
+                ch = lit[i]
+                if ch != "%":
+                    buf += ch
+                    i += 1
+                    continue
+                conv = lit[i + 1:i + 2]
+                if conv == "%":
+                    buf += "%"
+                elif conv in ("s", "d", "i"):
+                    if not args:
+                        raise TypeError("not enough arguments for format string")
+                    a = args.pop(0)
+                    if conv != "s" and is_strlike(a):
+                        raise TypeError("%d format: a real number is required, not str")
+                    if buf:
+                        out.append(buf)
+                        buf = ""
+                    out.append(a if is_strlike(a) else sym_str(a))
+                else:
+                    raise Unsupported(f"printf conversion %{conv} on a symbolic template")
+                i += 2
+            if buf:
+                out.append(buf)
+        if args:
+            raise TypeError("not all arguments converted during string formatting")
+        return sym_fmt(*out)
+
     def join(self, it):
         return sym_join(self, it)
 
@@ -1711,6 +1819,20 @@ def sym_normalize(form, s):
         raise Unsupported("symbolic normal form")
     E().cf_apps.append(("normalize:" + form, s.e))
     return SymStr(norm_fn(form)(s.e))
+
+
+JSON_ESC = z3.Function("json_escape_ascii", z3.StringSort(), z3.StringSort())
+JSON_SAFE = z3.Star(z3.Union(z3.Range(" ", "!"), z3.Range("#", "["), z3.Range("]", "~")))     # printable ASCII without " and \\
+ASTRAL = z3.Range(chr(0x10000), chr(0x2FFFF))
+
+
+def sym_json_string(s, ensure_ascii=True):
+    """json.dumps of a symbolic string: '"' ++ escape(s) ++ '"' with the escaping an uninterpreted function (identity on
+    printable ASCII without the quote and the backslash; a few non-trivial values for counterexample refinement)."""
+    if not ensure_ascii:
+        raise Unsupported("json.dumps(ensure_ascii=False) of a symbolic string")
+    E().cf_apps.append(("jsonesc", s.e))
+    return SymStr(z3.Concat(z3.StringVal('"'), JSON_ESC(s.e), z3.StringVal('"')))
 
 
 def ascii_islower_expr(t, bound):
